@@ -70,32 +70,36 @@ def check_inventory(ctx, theorems):
     """Obligation: every range over a map in martian/syntax and martian/core is
     in the audited table."""
     table = json.load(open(os.path.join(lib.VERIF, "checks", "c10_inventory.json")))["sites"]
-    by_key = {(s["file"], s["func"], s["expr"], s["ordinal"]): s for s in table}
+    by_key = {(s["file"], s["func"], s["type"], s["ordinal"]): s for s in table}
     p = subprocess.run([ctx.vh, "c10", "inventory", lib.REPO] + PKGS, stdout=subprocess.PIPE,
                        stderr=subprocess.PIPE, text=True, env=lib.GOENV, timeout=600)
     if p.returncode != 0:
         ctx.oblige("map-range inventory: go/types scan of martian/syntax and martian/core runs", False, p.stderr[-1500:])
         return
     found = []
+    ords = collections.Counter()
     for line in p.stdout.splitlines():
         f = line.split("\t")
-        found.append(((f[0], f[1], f[2], int(f[3])), int(f[4]), f[5]))
+        kk = (f[0], f[1], f[5])
+        # key: file, function, map type, ordinal among the ranges over that type in that function
+        found.append(((f[0], f[1], f[5], ords[kk]), int(f[4]), f[2]))
+        ords[kk] += 1
     new = [(k, ln, ty) for k, ln, ty in found if k not in by_key]
     seen = set(k for k, _, _ in found)
     stale = [k for k in by_key if k not in seen]
     ctx.oblige("map-range inventory: all %d ranges over map-typed expressions in martian/syntax and martian/core are in the audited table" % len(found),
                not new,
-               "unaudited traversal(s): " + "; ".join("%s:%d %s range %s (%s)" % (k[0], ln, k[1], k[2], ty) for k, ln, ty in new[:12]))
+               "unaudited traversal(s): " + "; ".join("%s:%d %s range %s (%s)" % (k[0], ln, k[1], ex, k[2]) for k, ln, ex in new[:12]))
     bad_lemma = [s for s in table if s["class"] == "sorted" and s.get("covered_by") not in theorems]
     ctx.oblige("map-range inventory: every 'sorted' site names a theorem of Properties/C10.v", not bad_lemma,
                "; ".join("%s %s -> %s" % (s["file"], s["func"], s.get("covered_by")) for s in bad_lemma[:8]))
     classes = collections.Counter(by_key[k]["class"] for k, _, _ in found if k in by_key)
-    for k, ln, _ in found:
+    for k, ln, ex in found:
         s = by_key.get(k)
         if s and s["class"] == "leak":
             ctx.fail("unsorted_traversal:%s:%s" % (k[0], k[1].lstrip("*")),
-                     "iteration order of %s in %s reaches an observable: %s" % (k[2], k[1], s["reason"][:300]),
-                     {"site": "%s:%d" % (k[0], ln), "func": k[1], "range": k[2], "audit": s["reason"],
+                     "iteration order of %s in %s reaches an observable: %s" % (ex, k[1], s["reason"][:300]),
+                     {"site": "%s:%d" % (k[0], ln), "func": k[1], "range": ex, "audit": s["reason"],
                       "trigger": s.get("trigger", ""), "observable": s.get("observable", ""),
                       "how": "checks/c10_inventory.json class=leak; run vh c10 oracle on a program of the trigger shape"})
     ctx.coverage["inventory"] = {"sites": len(found), "classes": dict(classes), "stale_table_entries": len(stale),
@@ -127,16 +131,23 @@ def check(ctx, args):
     os.environ["VERIF_REPO"] = lib.REPO
     lib.GOENV["VERIF_REPO"] = lib.REPO
     if args.replay:
+        # re-run the in-process repetition oracle on the case of a replay file
+        import shutil
         rp = json.load(open(args.replay))
         case = rp.get("minimal", {}).get("replay", {}).get("case")
+        rc = 0
         if case:
             open(cases, "w").write(case + "\n")
             ctx.vh_run(["c10", "oracle"], stdin_path=cases, out_path=oracle)
-            print(open(oracle).read()[:3000])
-        shutil_rc = 0 if not case or open(oracle).read().startswith("ok") else 1
-        import shutil
+            res = open(oracle).read()
+            print(res[:3000])
+            rc = 0 if res.startswith("ok") else 1
+        else:
+            print("replay file names no input case (broken obligation / inventory site): %s" %
+                  json.dumps(rp.get("minimal", {}).get("replay", rp.get("no_longer_checks", "")))[:2000])
+            rc = 1
         shutil.rmtree(ctx.scratch, ignore_errors=True)
-        return shutil_rc
+        return rc
     # -- (1) inventory obligation
     check_inventory(ctx, set(theorems))
     # -- (2) correspondence
